@@ -136,7 +136,14 @@ def nice_model(ctx, f, h, model):
     return model
 
 
-def run_step(P, cfg, n, op, props=None, seed=0, timeout_ms=20000, nmax=None, deadline=None, hits_max=False):
+# preservation of the representation invariant by every core operation: every property decided from Inv pre-states (all STEP
+# VCs) or through the wrappers (which reach the engines only through these operations) rests on it, so each such check
+# discharges these obligations too (reported under the property being checked)
+INV_CLAUSES = {'queue still tracks exactly the stored keys', 'queue tracks exactly the stored keys, without duplicates', 'queue tracks exactly the stored keys',
+               'an expired entry is purged from the eviction queue on access', 'never more than `limit` entries after a store'}
+
+
+def run_step(P, cfg, n, op, props=None, seed=0, timeout_ms=20000, nmax=None, deadline=None, hits_max=False, inv_for=None):
     """execute STEP(cfg, n, op) and check all claims whose property is in `props` (None = all)"""
     I = Interp(P)
     res = StepResult(); t0 = time.time()
@@ -193,7 +200,9 @@ def run_step(P, cfg, n, op, props=None, seed=0, timeout_ms=20000, nmax=None, dea
         else: cls = [op]
         for c in cls: res.classes.add(c)
         for case_cond, cl in claims:
-            if props is not None and cl.prop not in props: continue
+            # wrapper-level properties also rest on the lookup / store contract of the engines (value, presence, lifetime: the C01, C03, C06 obligations)
+            as_inv = bool(inv_for) and (cl.clause in INV_CLAUSES or cl.prop in ('C01', 'C03', 'C06')) and (props is None or cl.prop not in props)
+            if props is not None and cl.prop not in props and not as_inv: continue
             res.claims += 1
             f = cl.formula
             if case_cond is not True: f = z3.Implies(case_cond, f) if f is not False else z3.Not(case_cond)
@@ -203,7 +212,8 @@ def run_step(P, cfg, n, op, props=None, seed=0, timeout_ms=20000, nmax=None, dea
                 if model is None:
                     res.spurious_real = getattr(res, 'spurious_real', 0) + 1
                     continue
-                res.failed.append(dict(prop=cl.prop, clause=cl.clause, cfg=cfg.tag(), n=n, op=op,
+                res.failed.append(dict(prop=(inv_for if as_inv else cl.prop), clause=(('core contract this property rests on: ' + cl.clause) if as_inv else cl.clause),
+                                       orig_prop=cl.prop, orig_clause=cl.clause, cfg=cfg.tag(), n=n, op=op,
                                        witness=model_witness(ctx, model, h, dict(argkey=k, argval=v, argsize=(h.SIZE(v) if not isinstance(v, Agg) else 0), op=op, result=('Some' if getattr(r, 'variant', 0) == 1 else 'None') if op == 'get' else None))))
     res.wall = time.time() - t0
     return res
